@@ -9,7 +9,7 @@ from common import S, enc_jv, run_batch, exn_name, unS, EXN_CODE
 NOT_MAPPING = '<<NOT-A-MAPPING>>'
 
 # harness-registered check classes: kind -> (id, arity)
-CUSTOM = {'c3a': 30, 'c3b': 31, 'c4a': 40, 'c4b': 41}
+CUSTOM = {'c3a': 30, 'c3b': 31, 'c3k': 32, 'c3o': 33, 'c4a': 40, 'c4b': 41}
 EXTRA = [[S(k), 10 + i] for k, i in CUSTOM.items()]
 
 _trace = []
@@ -30,7 +30,25 @@ def register_custom():
         # current_rule) derives from the three-parameter c3a, and c3b (three parameters) from the four-parameter c4a
         # ... and the three-parameter c3a derives from a built-in concrete check (RuleCheck)
         base = {41: classes.get('c3a'), 31: classes.get('c4a'), 30: _checks.RuleCheck}.get(ident) or _checks.Check
-        if arity == 3:
+        if ident == 32:
+            # three named parameters and **kwargs: still a three-argument check
+            class C(base):
+                def __call__(self, target, creds, enforcer, **kwargs):
+                    _trace.append(('custom', ident, 'NOARG' if not kwargs else 'KWARGS'))
+                    r = _custom_results.get(kind, True)
+                    if isinstance(r, BaseException):
+                        raise r
+                    return r
+        elif ident == 33:
+            # ... and a keyword-only parameter
+            class C(base):
+                def __call__(self, target, creds, enforcer, *, strict=True):
+                    _trace.append(('custom', ident, 'NOARG'))
+                    r = _custom_results.get(kind, True)
+                    if isinstance(r, BaseException):
+                        raise r
+                    return r
+        elif arity == 3:
             class C(base):
                 def __call__(self, target, creds, enforcer):
                     _trace.append(('custom', ident, 'NOARG'))
@@ -156,6 +174,8 @@ def enc_default(d):
         return [0]
     if d[0] in ('name', 'conf'):
         return [1, S(d[1])]
+    if d[0] == 'name_empty':
+        return [1, S('default')]        # the option's stock value
     if d[0] == 'check':
         return [2, enc_jv(d[1])]
     if d[0] == 'dict':
@@ -173,6 +193,15 @@ def enc_http(h):
 
 
 def enc_case(case):
+    if case.get('creds_as') in ('context', 'policy_values', 'policy_values+system') and isinstance(case['creds'], dict):
+        # the model is given the plain-dict equivalent of whatever representation the implementation gets
+        pv = convert_creds('policy_values', case['creds'])
+        m = dict(case)
+        m['creds'] = {k: pv[k] for k in pv}
+        if case['creds_as'] == 'policy_values+system':
+            m['creds']['system'] = 'all'
+        m.pop('creds_as')
+        return enc_case(m)
     custom = []
     for kind, ident in CUSTOM.items():
         r = case.get('custom', {}).get(kind, True)
@@ -235,6 +264,8 @@ def run_impl(case, deep=None):
     kw = {'policy_file': 'policy.yaml'}
     if d[0] == 'name':
         kw['default_rule'] = d[1]
+    elif d[0] == 'name_empty':
+        kw['default_rule'] = ''         # an empty constructor argument means "not given": the option decides
     elif d[0] == 'check':
         kw['default_rule'] = _parser.parse_rule(d[1])
     elif d[0] == 'dict':
@@ -246,6 +277,26 @@ def run_impl(case, deep=None):
     conf.set_override('enforce_scope', bool(case.get('enforce_scope', True)), group='oslo_policy')
     for k, v in case.get('conf', {}).items():
         conf.set_override(k, v, group='oslo_policy')
+    try:
+        return _run_impl_built(case, deep, conf, kw, policy, _parser)
+    except _Construction as ex:
+        return ('exc', ex.args[0], ex.args[1]), []
+
+
+class _Construction(Exception):
+    pass
+
+
+def _construct(policy, conf, **kw):
+    """what building the enforcer raises is what the service sees instead of a decision"""
+    try:
+        return policy.Enforcer(conf, **kw)
+    except Exception as ex:   # noqa
+        raise _Construction(type(ex).__name__, str(ex)[:200])
+
+
+def _run_impl_built(case, deep, conf, kw, policy, _parser):
+    d = case['default']
     if 'enforce_scope_at_init' in case:
         # the option has another value while the enforcer is built than when it is asked
         conf.set_override('enforce_scope', bool(case['enforce_scope_at_init']), group='oslo_policy')
@@ -259,7 +310,7 @@ def run_impl(case, deep=None):
                 f.write(case['file_text'])      # another spelling of the same (empty) rule set
             else:
                 _json.dump(case['rules'], f)
-        e = policy.Enforcer(conf, **kw)
+        e = _construct(policy, conf, **kw)
     elif case.get('from_dir'):
         # ... or only a policy directory, with no policy file at all
         import json as _json
@@ -272,9 +323,9 @@ def run_impl(case, deep=None):
             _json.dump(case['rules'], f)
         conf.set_override('policy_dirs', [d], group='oslo_policy')
         kw['policy_file'] = 'absent_%d.yaml' % os.getpid()
-        e = policy.Enforcer(conf, **kw)
+        e = _construct(policy, conf, **kw)
     else:
-        e = policy.Enforcer(conf, use_conf=False, **kw)
+        e = _construct(policy, conf, use_conf=False, **kw)
     if 'enforce_scope_at_init' in case:
         conf.set_override('enforce_scope', bool(case.get('enforce_scope', True)), group='oslo_policy')
     for name, types in case.get('registered', {}).items():
